@@ -17,8 +17,9 @@
                             /\ forall cfg tc, balance_text cfg tc ss' ~ balance_text cfg tc ss   PROVED
                         (all of it for one and the same ss': C09_roundtrip)
    [~] is "both commands fail, or the same bytes" (OrderCmd.ceq eq): the error of a failing balance
-   run legitimately depends on the order of the directives (C05_error_depends_on_order).  The
-   report statement also carries C05's exclusion [no_conflicting_prices].
+   run legitimately depends on the order of the directives (C05_error_depends_on_order).  C05's
+   exclusion of conflicting price declarations is NOT needed: journal.Print keeps the order of a
+   day's prices (C09_printed_same_reports).
 
    [input_lex ss] (Proofs/PrintLexInput.v) says what the parser guarantees of every journal it has
    read: years 0000..9999; account segments and commodities are non-empty runs of Unicode letters
@@ -42,15 +43,14 @@
          DivRound by the arithmetic of big.Int.Quo (C09_div_of_values).
          Proofs/DecNormalForm.v, CheckQuant.v, PrintRequant.v, QuantSim.v, QuantNum.v,
          QuantReport.v, QuantStages.v, QuantValue.v, QuantText.v, QuantPrint.v.
-     (c) printing permutes the denoted directives (C09_printed_is_permutation; then C05 gives check
-         and balance invariance), the builder gives the printed days back, transaction.Compare is
-         a total preorder and the sort idempotent (C09_sort_idem).
-         Proofs/PrintRegroup.v, TxnOrder.v, PrintNormal.v.
+     (c) printing permutes the denoted directives (C09_printed_is_permutation; then C05 gives
+         check invariance), the builder gives the printed days back (C09_builder_of_printed):
+         the journal's days with each day's transactions sorted, so C05's stage lemmas give the
+         same reports without its price exclusion (C09_printed_same_reports); transaction.Compare
+         is a total preorder and the sort idempotent (C09_sort_idem).
+         Proofs/PrintRegroup.v, TxnOrder.v, PrintNormal.v, PrintReportsDirect.v.
    NOT PROVED / weaker than one might wish:
      - for failing balance runs only "both fail" ([~]), not the same error;
-     - [no_conflicting_prices] is inherited from C05's permutation theorem; journal.Print keeps the
-       order of a day's price directives, so the hypothesis is presumably not needed here (it
-       would take a variant of C05's ComputePrices stage lemma for equal price lists);
      - for @accrue, input_lex asks directly that the period ends of the window lie in years
        0000..9999 (a consequence of start and end lying there, but no monotonicity lemma for
        year_of is available).
@@ -67,7 +67,7 @@ From Knut Require Import Proofs.PrintProofs.
 From Coq Require Import Permutation.
 From Knut Require Import Model.Check Proofs.OrderCmd Proofs.DecEqProofs Proofs.DecNormalForm Proofs.TxnOrder Proofs.CheckQuant Proofs.PrintRegroup
      Proofs.PrintRequant Proofs.PrintNormal Proofs.PrintLex Proofs.PrintText Proofs.PrintLexInput
-     Proofs.QuantSim Proofs.QuantNum Proofs.QuantReport Proofs.QuantValue Proofs.QuantPrint.
+     Proofs.QuantSim Proofs.QuantNum Proofs.QuantReport Proofs.QuantValue Proofs.QuantPrint Proofs.PrintReportsDirect.
 Import ListNotations.
 Open Scope Z_scope.
 
@@ -98,22 +98,22 @@ Print Assumptions C09_normal_form.
 (* ... and whose balance reports are the journal's: the same CSV and text bytes, or both commands
    fail (the error of a failing run may differ, C05_error_depends_on_order), for every
    configuration (window, interval, --last, --diff, --close, valuation, mappings, filters, both
-   checkers, thousands, rounding).  [no_conflicting_prices] is C05's exclusion. *)
+   checkers, thousands, rounding). *)
 Theorem C09_same_reports : forall l ss text,
-  input_lex ss -> no_conflicting_prices ss -> printed (print_cmd l) ss text ->
+  input_lex ss -> printed (print_cmd l) ss text ->
   exists ss', reparse text = MOk ss' /\
     (forall cfg, ceq eq (balance_csv cfg ss') (balance_csv cfg ss)) /\
     (forall cfg tc, ceq eq (balance_text cfg tc ss') (balance_text cfg tc ss)).
-Proof. intros l ss text HL Hn Hp. exact (print_same_reports l ss text (input_lex_ok ss HL) Hn Hp). Qed.
+Proof. intros l ss text HL Hp. exact (print_same_reports l ss text (input_lex_ok ss HL) Hp). Qed.
 Print Assumptions C09_same_reports.
 
 (* the three statements for one and the same re-read journal *)
 Theorem C09_roundtrip : forall l ss text,
-  input_lex ss -> no_conflicting_prices ss -> printed (print_cmd l) ss text ->
+  input_lex ss -> printed (print_cmd l) ss text ->
   exists ss', reparse text = MOk ss' /\ accepted l ss' /\ printed (print_cmd l) ss' text /\
     (forall cfg, ceq eq (balance_csv cfg ss') (balance_csv cfg ss)) /\
     (forall cfg tc, ceq eq (balance_text cfg tc ss') (balance_text cfg tc ss)).
-Proof. intros l ss text HL Hn Hp. exact (print_roundtrip l ss text (input_lex_ok ss HL) Hn Hp). Qed.
+Proof. intros l ss text HL Hp. exact (print_roundtrip l ss text (input_lex_ok ss HL) Hp). Qed.
 Print Assumptions C09_roundtrip.
 
 (* the hypothesis is satisfiable: the journal of C09_example (Unicode account name, two-line
@@ -192,6 +192,14 @@ Theorem C09_builder_of_printed : forall ds,
   mkBuilder (sort_days (b_days (builder_of ds))) (b_min (builder_of ds)) (b_max (builder_of ds)).
 Proof. exact builder_of_printed. Qed.
 Print Assumptions C09_builder_of_printed.
+
+(* the printed sequence has the journal's reports (no condition on the price declarations) *)
+Theorem C09_printed_same_reports : forall ss b,
+  sd_syntactic ss -> load ss = COk b ->
+  (forall cfg, ceq eq (balance_csv cfg ss) (balance_csv cfg (printed_dirs (b_days b)))) /\
+  (forall cfg tc, ceq eq (balance_text cfg tc ss) (balance_text cfg tc (printed_dirs (b_days b)))).
+Proof. exact reports_printed_dirs_direct. Qed.
+Print Assumptions C09_printed_same_reports.
 
 Theorem C09_sort_idem : forall days, sort_days (sort_days days) = sort_days days.
 Proof. exact sort_days_idem. Qed.
